@@ -144,6 +144,8 @@ def run_case(case, ctx, _objs=None):
 		classes.append('unreportable_prediction')
 	if dists.count(dmin) > 1:
 		classes.append('tie_at_min')
+	if any(d != dmin and abs(d - dmin) <= 1e-5 * max(dmin, 1e-3) for d in dists):
+		classes.append('near_tie_at_min')
 	if sum(1 for t in taxa if t['parent'] is None) > 1:
 		classes.append('multi_root')
 	if any(genome_taxa[j] in {t['parent'] for t in taxa} for j in range(len(genome_taxa))):
@@ -165,6 +167,14 @@ def gen_case(draw, tier):
 	dists = draw(st.lists(taxgen.DIST, min_size=ng, max_size=ng))
 	if ng >= 2 and draw(st.integers(0, 3)) == 3:
 		dists[draw(st.integers(0, ng - 1))] = min(dists)     # tie at the minimum
+	if ng >= 2 and draw(st.integers(0, 2)) == 2:
+		# near-tie: another genome a hair above the minimum (1 binary32 ulp / a few ppm): it must not be taken for the closest
+		m = min(dists)
+		near = draw(st.sampled_from(['ulp', 'ppm1', 'ppm8']))
+		v = taxgen.next32(m, True) if near == 'ulp' else taxgen.f32(m * (1 + (1e-6 if near == 'ppm1' else 8e-6)) + (1e-9 if m == 0 else 0))
+		j = draw(st.integers(0, ng - 1))
+		if dists[j] != m or dists.count(m) > 1:
+			dists[j] = min(v, 1.0)
 	genomes = draw(st.lists(st.integers(0, len(taxa) - 1), min_size=ng, max_size=ng))
 	edits = draw(st.one_of(st.none(), st.none(), st.lists(st.fixed_dictionaries({'i': st.integers(0, 20), 'thr': st.one_of(st.none(), taxgen.THR), 'parent': st.one_of(st.none(), st.integers(-1, 20)), 'report': st.one_of(st.none(), st.booleans())}), min_size=1, max_size=3)))
 	return {'kind': 'classify', 'taxa': taxa, 'genomes': genomes, 'dists': dists, 'edits': edits}
